@@ -261,11 +261,28 @@ theorem cl_tm_new (env : Env) (st : PState) (cfg : W.Cfg) (hr : Ready cfg st) (o
 theorem cl_tm_known (env : Env) (st : PState) (cfg : W.Cfg) (hr : Ready cfg st) (off ts : Nat) (t : W.TableDef)
     (ht : TableOK cfg t) (optional : Bytes) (hts : ts < 2 ^ 32)
     (hb : endOf cfg off (W.tableMapBody (if cfg.idw4 then 4 else 6) t.id 1 t.db t.name t.cols optional) < 2 ^ 32)
-    (old : TableCache) (hold : findTable st.tables t.id = some old) :
+    (old : TableCache) (hold : findTable st.tables t.id = some old)
+    (hsame : old.tableMap.database = t.db ∧ old.tableMap.name = t.name) :
     classify env st (bytesAt cfg off 19 ts (W.tableMapBody (if cfg.idw4 then 4 else 6) t.id 1 t.db t.name t.cols optional))
       = .tableMap t.id { old with tableMap := tmOf t } true :=
-  C01_classify_tablemap_known env st cfg hr _ (crcOf_ok cfg off) { ts := ts } off t ht optional
-    (evOK_at cfg off ts _ hts hb) old hold
+  C01_classify_tablemap_known_same_table env st cfg hr _ (crcOf_ok cfg off) { ts := ts } off t ht optional
+    (evOK_at cfg off ts _ hts hb) old hold hsame
+
+theorem cl_tm_reused (env : Env) (st : PState) (cfg : W.Cfg) (hr : Ready cfg st) (off ts : Nat) (t : W.TableDef)
+    (ht : TableOK cfg t) (optional : Bytes) (hts : ts < 2 ^ 32)
+    (hb : endOf cfg off (W.tableMapBody (if cfg.idw4 then 4 else 6) t.id 1 t.db t.name t.cols optional) < 2 ^ 32)
+    (old : TableCache) (hold : findTable st.tables t.id = some old)
+    (hdiff : ¬ (old.tableMap.database = t.db ∧ old.tableMap.name = t.name))
+    (hm : env.mapper t.db t.name = some (infoOf t)) :
+    classify env st (bytesAt cfg off 19 ts (W.tableMapBody (if cfg.idw4 then 4 else 6) t.id 1 t.db t.name t.cols optional))
+      = .tableMap t.id ⟨tmOf t, infoOf t⟩ false :=
+  C01_classify_tablemap_reused env st cfg hr _ (crcOf_ok cfg off) { ts := ts } off t ht optional
+    (evOK_at cfg off ts _ hts hb) old hold hdiff hm
+
+/-- an entry made from a Spec table is cached under that table's database and name -/
+theorem same_of_eq {old : TableCache} {t : W.TableDef} (h : old = ⟨tmOf t, infoOf t⟩) :
+    old.tableMap.database = t.db ∧ old.tableMap.name = t.name := by
+  subst h; exact ⟨rfl, rfl⟩
 
 theorem cl_rows (env : Env) (st : PState) (cfg : W.Cfg) (hr : Ready cfg st) (off : Nat) (c : W.RowsChange)
     (hrows : RowsOK cfg c) (hne : c.rows ≠ [])
@@ -457,11 +474,11 @@ theorem tm_step {env : Env} {cfg : W.Cfg} {P : W.TableDef → Prop} (ctx : Ctx e
   | none =>
     have hcl := cl_tm_new env st cfg h.fmt off ts t ht optional hts hb hc (ctx.mapper t hP)
     have hs := GV.C15.findTable_append_same st.tables t.id ⟨tmOf t, infoOf t⟩ hc
-    refine ⟨_, { st with tables := st.tables ++ [(t.id, ⟨tmOf t, infoOf t⟩)] }, hcl, by simp [stepD], ?_, rfl, rfl, hs⟩
+    refine ⟨_, { st with tables := st.tables ++ [(t.id, ⟨tmOf t, infoOf t⟩)] }, hcl, by simp [stepD, hc], ?_, rfl, rfl, hs⟩
     exact inv_tables h t hP rfl rfl hs (fun j hj => GV.C15.findTable_append_other st.tables t.id _ j hj)
   | some old =>
     have ho := cache_eq ctx h t hP old hc
-    have hcl := cl_tm_known env st cfg h.fmt off ts t ht optional hts hb old hc
+    have hcl := cl_tm_known env st cfg h.fmt off ts t ht optional hts hb old hc (same_of_eq ho)
     have he : ({ old with tableMap := tmOf t } : TableCache) = ⟨tmOf t, infoOf t⟩ := by rw [ho]
     rw [he] at hcl
     have hs := GV.C15.findTable_update_same st.tables t.id ⟨tmOf t, infoOf t⟩ old hc
